@@ -11,6 +11,11 @@ NAMES = st.one_of(
               st.sampled_from([".tar.bz2", ".conda", ""])),
     G.strings)
 
+LIBRARY_FIELDS = [("type", ["root", "key_mgr", "pkg_mgr", "conda"]), ("delegations", [{}, {"pkg_mgr": {"pubkeys": [], "threshold": 1}}]),
+                  ("metadata_spec_version", ["0.6.0", "0.1.0"]), ("expiration", ["2031-01-01T00:00:00Z"]),
+                  ("signatures", [{}, {"ab" * 32: {"signature": "cd" * 64}}]), ("signed", [{}, {"type": "root"}]), ("threshold", [1]),
+                  ("pubkeys", [[]]), ("timestamp", [1594619205, "2020-07-13T05:46:45Z"])]
+
 STYLES = ["canonical", "compact", "indent4", "unsorted", "spaces", "trailing-newline", "utf8", "crlf"]
 
 
@@ -20,7 +25,7 @@ def repodata(draw, min_artifacts=0, max_artifacts=8):
     names = draw(st.lists(NAMES, min_size=n, max_size=n, unique=True))
     metas = []
     for i in range(n):
-        kind = draw(st.sampled_from(["record", "record", "record", "json", "same-as-prev", "prev-one-leaf", "envelope-shaped"]))
+        kind = draw(st.sampled_from(["record", "record", "record", "json", "same-as-prev", "prev-one-leaf", "envelope-shaped", "library-fields"]))
         if kind == "same-as-prev" and metas:
             metas.append(json.loads(json.dumps(metas[-1])) if _plain(metas[-1]) else draw(G.package_record))
         elif kind == "prev-one-leaf" and metas and type(metas[-1]) is dict:
@@ -29,6 +34,12 @@ def repodata(draw, min_artifacts=0, max_artifacts=8):
             metas.append(m)
         elif kind == "json":
             metas.append(draw(G.payloads))
+        elif kind == "library-fields":
+            # ordinary package metadata that happens to use field names / values the library's own metadata uses
+            m = dict(draw(G.package_record))
+            for f, vals in draw(st.lists(st.sampled_from(LIBRARY_FIELDS), min_size=1, max_size=3, unique_by=lambda t: t[0])):
+                m[f] = draw(st.sampled_from(vals))
+            metas.append(m)
         elif kind == "envelope-shaped":
             # metadata that itself looks like a signed envelope (two fields "signatures" and "signed")
             metas.append({"signatures": draw(st.sampled_from([{}, {"ab" * 32: {"signature": "cd" * 64}}])), "signed": draw(G.package_record)})
